@@ -105,6 +105,7 @@ func raDuration(s string) (d time.Duration, integer bool) {
 // world is one model instance for a case.
 type world struct {
 	m       *rm.Model
+	t0      time.Time // taken right after the model was created: time.Since(t0) <= model clock
 	names   []string // mirrors..., upstream (configuration order)
 	spec    map[string]HostSpec
 	host    map[string]*rm.Host
@@ -207,14 +208,20 @@ func letterFault(l Letter) (rm.Fault, bool) {
 }
 
 // configHosts builds the client-side host configuration of the topology.
-func configHosts(c Case) map[string]*config.Host {
+//
+// reqConcurrent replaces the default of 3 concurrent requests per host: a
+// concurrency slot that is not given back (see the slot probe of L1) must show
+// up as a counted observation, not as a dead-locked case.
+func configHosts(c Case, reqConcurrent int64) map[string]*config.Host {
 	out := map[string]*config.Host{}
 	up := config.HostNewName(upName)
 	up.Priority = uint(c.Up.Prio)
+	up.ReqConcurrent = reqConcurrent
 	for i, ms := range c.Mirrors {
 		n := mirrorName(i)
 		h := config.HostNewName(n)
 		h.Priority = uint(ms.Prio)
+		h.ReqConcurrent = reqConcurrent
 		if c.Creds {
 			h.User, h.Pass = "user", "secret"
 		}
